@@ -5,7 +5,7 @@ from props import common, mix
 THM = "NextestModel.Thm.C03"
 THM_EXTRA = ["NextestModel.Thm.C03Unit"]
 GEN = ["tables"]
-GEN_GROUPS = ["drainexit", "verdict", "signames"]
+GEN_GROUPS = ["drainexit", "verdict", "signames", "statuswords"]
 CHECK_MODULES = ["NextestModel.Lemmas.Unit", "NextestModel.Model.Unit", "NextestModel.Model.Classify"]
 TRUSTED = ["model: Model/Classify (create_execution_result, AbortStatus::extract on Unix, describe)",
            "std's decoding of raw wait statuses (ExitStatusExt) is compared exhaustively with the model's"]
